@@ -44,6 +44,12 @@ CLAIMED = {
         "Tie: every accepted generated file set (plus graphs sized around hash-table growth boundaries) is compiled 8 times per backend in fresh processes (fresh SipHash keys): relative from the root (3x), absolute from /, from a relocated copy, "
         "with redundant components, through a symlink, relative from the parent; names and bytes of all outputs are compared; probe facts at two locations are compared with each other and with the model.",
    note=TB + " Determinism of emission order inside the code generators (iteration over source-ordered node lists) is observed by byte comparison, not proved."),
+ "C14": dict(engine="lean+pest tree+in-process generators+cli", technique="Lean 4 proof for the marking block (all marking texts) + exhaustive per-program trivia sweep against pest and the real generators",
+   text="Partial. Lean 4: for EVERY marking text the C/C++/Rust marking block consists of blank lines and lines starting with `//` only (so it lexes as comments, whatever the text contains), with the str::lines() model; the Java block is refuted for markings containing `*/` (known finding). "
+        "Not modelled (decided by pest and by pst.rs's decoders): trivia invariance. It is tied exhaustively per program: every trivia kind (space, tab, newline, // and /* */ comments, non-ASCII) is inserted at EVERY token gap in turn; placements the current grammar rejects (asked from a pest parser derived from /repo's grammar file) are not counted; "
+        "all 8 outputs of the real generators must equal the baseline. Documentation comments before every method (outputs equal after comment stripping), 4 marking texts x 4 backends (output = independently rendered block + unmarked output), typed vs untyped C output after renaming object types. "
+        "Three genuine defects found this way were repaired in /repo (comments inside declarations, documentation lost across an ordinary comment, const dropped by --no-typed-objects).",
+   note=TB + " pest's PEG engine and the positional decoders of pst.rs are observed, not modelled; the documentation renderer is compared after comment stripping only."),
  "C15": dict(engine="lean+facts+cli", technique="Lean 4 proof (prefix stability of the numbering walk; monotonicity of type expansion under symbol-table extension) + differential correspondence over random append-only histories",
    text="Lean 4: numberMembers_append / append_to_interface: numbering an interface with members appended numbers every pre-existing member of that interface and of its ancestors exactly as before (op-codes, error values, expanded parameter lists) and only adds members after them; "
         "plans_preserved: op-code, counts word, bundles and slot sections of old methods are unchanged; expandTy_extends: adding declarations of fresh names anywhere leaves every expanded type unchanged. "
